@@ -2,6 +2,7 @@
 import json
 import os
 import re
+import resource
 import shutil
 import subprocess
 import tempfile
@@ -87,11 +88,22 @@ def _env(flavour, detect_leaks, case_cpu):
     return env
 
 
+def _limits():
+    # deep (per token / per statement) recursion in the front end needs stack under ASan; the KF2
+    # witness is replayed separately with the default 8 MiB
+    try:
+        resource.setrlimit(resource.RLIMIT_STACK, (512 << 20, 512 << 20))
+    except (ValueError, OSError):
+        pass
+    resource.setrlimit(resource.RLIMIT_CORE, (0, 0))
+
+
 def _parse_out(path, n_expected_from, results):
     """parse driver stdout; returns (finished, index_of_unfinished_case or None, timeout_info)"""
     cur = None
     finished = False
     timeout = None
+    abandoned_at = None
     with open(path, "rb") as f:
         for raw in f:
             line = raw.decode("latin-1").rstrip("\n")
@@ -112,8 +124,17 @@ def _parse_out(path, n_expected_from, results):
                 m = re.match(r"TIMEOUT c(\d+) rewrites=(-?\d+) steps=(-?\d+)", line)
                 if m:
                     timeout = (int(m.group(1)), int(m.group(2)), int(m.group(3)))
+            elif line.startswith("ABANDONED c"):
+                m = re.match(r"ABANDONED c(\d+) rewrites=(-?\d+)", line)
+                if m:
+                    results[int(m.group(1))] = {"abandoned": True, "rewrites": int(m.group(2)), "id": "c" + m.group(1)}
+                    if cur == int(m.group(1)):
+                        cur = None
+                        abandoned_at = int(m.group(1))
             elif line == "FINISHED":
                 finished = True
+    if abandoned_at is not None and not finished and cur is None:
+        return finished, ("abandoned", abandoned_at), timeout
     return finished, cur, timeout
 
 
@@ -139,7 +160,7 @@ def run_cases(binary, cases, flavour="asan", detect_leaks=False, case_cpu=600, r
             with open(of, "wb") as o, open(ef, "wb") as e:
                 try:
                     p = subprocess.run([binary, cf, str(skip)], stdout=o, stderr=e, env=env,
-                                       timeout=max(3600, 4 * case_cpu))
+                                       timeout=max(3600, 4 * case_cpu), preexec_fn=_limits)
                     rc = p.returncode
                 except subprocess.TimeoutExpired:
                     rc = -999
@@ -151,6 +172,9 @@ def run_cases(binary, cases, flavour="asan", detect_leaks=False, case_cpu=600, r
                     notes.append({"at_exit": True, "kind": kind, "frame": frame, "stderr": stderr[-6000:],
                                   "exit": rc})
                 break
+            if isinstance(cur, tuple):
+                skip = cur[1] + 1   # the driver left on purpose after an abandoned case (KF1)
+                continue
             if cur is None:
                 # died between cases or before the first one: harness problem
                 notes.append({"harness": True, "stderr": stderr[-4000:], "exit": rc})
@@ -176,7 +200,7 @@ def run_cases(binary, cases, flavour="asan", detect_leaks=False, case_cpu=600, r
                 of = os.path.join(d, "rout%d" % i)
                 with open(of, "wb") as o, open(os.path.join(d, "rerr%d" % i), "wb") as e:
                     try:
-                        subprocess.run([binary, cf2, "0"], stdout=o, stderr=e, env=env, timeout=4 * case_cpu)
+                        subprocess.run([binary, cf2, "0"], stdout=o, stderr=e, env=env, timeout=4 * case_cpu, preexec_fn=_limits)
                     except subprocess.TimeoutExpired:
                         pass
                 tmp = [None]
